@@ -24,7 +24,8 @@ From NV Require Import Rec.Lang.
 
 Inductive body : Type :=
 | BSrc (t : tm)
-| BMerge (b1 : body) (d1 : list N) (b2 : body) (d2 : list N).
+| BMerge (b1 : body) (d1 : list N) (b2 : body) (d2 : list N)
+| BInd (tid : nat).        (* the closure of a term that is another thunk (an indirection) *)
 
 Inductive thunk : Type :=
 | Std (b : body)
@@ -50,10 +51,21 @@ Record cfg : Type := {
   c_an : tm -> list N;           (* the dependency analysis (part A restricted to this fragment) *)
   c_unknown : bool;              (* hook H4: every field FieldDeps::Unknown *)
   c_revert : revert_mode;
-  c_patch : patch_mode }.
+  c_patch : patch_mode;
+  c_wrap_dyn : bool }.           (* operation.rs, BinaryOp::RecordInsert closurizes the value it pops;
+                                    closurize.rs wraps a thunk that has dependencies in a new
+                                    standard thunk: this is what happens to the value of a
+                                    dynamically named field (false: RecordInsert keeps a thunk as
+                                    it is, the proposed patch) *)
 
-Definition cfg_real : cfg := {| c_an := vars; c_unknown := false; c_revert := RevFresh; c_patch := PAssert |}.
-Definition cfg_unknown : cfg := {| c_an := vars; c_unknown := true; c_revert := RevFresh; c_patch := PAssert |}.
+(* the Rust code as it is *)
+Definition cfg_current : cfg :=
+  {| c_an := vars; c_unknown := false; c_revert := RevFresh; c_patch := PAssert; c_wrap_dyn := true |}.
+(* the Rust code with the patch proposed for RecordInsert (a popped thunk is stored as it is) *)
+Definition cfg_fixed : cfg :=
+  {| c_an := vars; c_unknown := false; c_revert := RevFresh; c_patch := PAssert; c_wrap_dyn := false |}.
+Definition with_unknown (c : cfg) : cfg :=
+  {| c_an := c_an c; c_unknown := true; c_revert := c_revert c; c_patch := c_patch c; c_wrap_dyn := c_wrap_dyn c |}.
 
 Fixpoint set_nth {A} (i : nat) (x : A) (l : list A) : list A :=
   match l, i with
@@ -133,13 +145,41 @@ Fixpoint patch_all (pm : patch_mode) (rid : nat) (ths : list thunk) (r : irec) :
       end
   end.
 
-(* the Term::RecRecord arm for a record out of the parser; None = panic *)
+(* Closurize for NickelValue with BindingType::Normal, applied by %record/insert% to the value of a
+   dynamically named field: a thunk without dependencies is reused, any other thunk is wrapped *)
+Definition closurize_dyn (c : cfg) (ths : list thunk) (tid : nat) : list thunk * nat :=
+  match nth_error ths tid with
+  | Some (Rev _ _ _) => if c_wrap_dyn c then (ths ++ [Std (BInd tid)], length ths) else (ths, tid)
+  | _ => (ths, tid)
+  end.
+
+(* the dynamically named fields are inserted one by one into the record of the static fields; the
+   model keeps all fields in one record and only performs the closurization of the inserted values *)
+Fixpoint insert_dyn (c : cfg) (ths : list thunk) (l : literal) (r : irec) : list thunk * irec :=
+  match l, r with
+  | (_, d) :: l', (k, f) :: r' =>
+      let (ths1, f1) :=
+        match fdyn d, ival f with
+        | true, Some tid => let (ths1, tid1) := closurize_dyn c ths tid in
+                            (ths1, {| iprio := iprio f; ival := Some tid1 |})
+        | _, _ => (ths, f)
+        end in
+      let (ths2, r2) := insert_dyn c ths1 l' r' in
+      (ths2, (k, f1) :: r2)
+  | _, _ => (ths, r)
+  end.
+
+(* the Term::RecRecord arm for a record out of the parser; None = panic.  All fields (static and
+   dynamic) are closurized with the dependencies computed with respect to the static names, patched
+   with the recursive environment of the static fields, then the dynamic ones are inserted. *)
 Definition eval_literal (c : cfg) (st : state) (l : literal) : option (state * nat) :=
-  let (ths, r) := alloc_lit c (lit_names l) (thunks st) l in
+  let (ths, r) := alloc_lit c (lit_scope l) (thunks st) l in
   let rid := length (recs st) in
   match patch_all (c_patch c) rid ths r with
   | None => None
-  | Some ths' => Some ({| thunks := ths'; recs := recs st ++ [r] |}, rid)
+  | Some ths' =>
+      let (ths'', r') := insert_dyn c ths' l r in
+      Some ({| thunks := ths''; recs := recs st ++ [r'] |}, rid)
   end.
 
 (* ---------------------------------------------------------------- merge *)
@@ -263,10 +303,11 @@ Definition merge (c : cfg) (st : state) (rid1 rid2 : nat) : option (state * nat)
   end.
 
 (* ---------------------------------------------------------------- reading a field *)
-Fixpoint ievalb (look : N -> outcome) (b : body) : outcome :=
+Fixpoint ievalb (ind : nat -> outcome) (look : N -> outcome) (b : body) : outcome :=
   match b with
   | BSrc t => eval_tm look t
-  | BMerge b1 d1 b2 d2 => merge_out (ievalb (scoped d1 look) b1) (ievalb (scoped d2 look) b2)
+  | BMerge b1 d1 b2 d2 => merge_out (ievalb ind (scoped d1 look) b1) (ievalb ind (scoped d2 look) b2)
+  | BInd tid => ind tid
   end.
 
 Definition in_deps (x : N) (d : option (list N)) : bool :=
@@ -275,30 +316,37 @@ Definition in_deps (x : N) (d : option (list N)) : bool :=
   | Some l => mem x l
   end.
 
-Fixpoint ifield (fuel : nat) (st : state) (rid : nat) (k : N) : outcome :=
-  match fuel with
-  | O => OutOfFuel
-  | S n =>
-      match nth_error (recs st) rid with
-      | None => Panic
-      | Some r =>
-          match ilookup k r with
-          | None => Err FieldMissing
-          | Some f =>
-              match ival f with
-              | None => Err MissingDef
-              | Some tid =>
-                  match nth_error (thunks st) tid with
-                  | None => Panic
-                  | Some (Std b) => ievalb (fun _ => Err UnboundId) b
-                  | Some (Rev _ _ None) => Panic          (* REVTHUNK_NO_CACHED_VALUE_MSG *)
-                  | Some (Rev o d (Some c)) =>
-                      ievalb (fun x => if in_deps x d then var_out (ifield n st c x) else Err UnboundId) o
-                  end
-              end
+(* field [k] of record instance [rid], given how thunks evaluate *)
+Definition field_via (ith : nat -> outcome) (st : state) (rid : nat) (k : N) : outcome :=
+  match nth_error (recs st) rid with
+  | None => Panic
+  | Some r =>
+      match ilookup k r with
+      | None => Err FieldMissing
+      | Some f =>
+          match ival f with
+          | None => Err MissingDef
+          | Some tid => ith tid
           end
       end
   end.
+
+Fixpoint ithunk (fuel : nat) (st : state) (tid : nat) : outcome :=
+  match fuel with
+  | O => OutOfFuel
+  | S n =>
+      match nth_error (thunks st) tid with
+      | None => Panic
+      | Some (Std b) => ievalb (ithunk n st) (fun _ => Err UnboundId) b
+      | Some (Rev _ _ None) => Panic          (* REVTHUNK_NO_CACHED_VALUE_MSG *)
+      | Some (Rev o d (Some c)) =>
+          ievalb (ithunk n st)
+                 (fun x => if in_deps x d then var_out (field_via (ithunk n st) st c x) else Err UnboundId) o
+      end
+  end.
+
+Definition ifield (fuel : nat) (st : state) (rid : nat) (k : N) : outcome :=
+  field_via (ithunk fuel st) st rid k.
 
 (* ---------------------------------------------------------------- histories *)
 Inductive slot : Type := Rid (n : nat) | BadRef | Panicked.
